@@ -12,7 +12,25 @@ NOT_APPLICABLE = {
     'C19': "substance lives inside Keccak-256, secp256k1, HMAC-SHA512/PBKDF2 and reflection-driven amino/protobuf/EIP-712 rendering: beyond bounded SMT reach (hash/curve arithmetic), and with those stubbed as uninterpreted functions binding/injectivity would hold by assumption (DESIGN.md section 6)",
 }
 
+SDB_ASSUMPTIONS = COMMON_ASSUMPTIONS + [
+    'Account keeper model: authkeeper.AccountKeeper methods replaced by model.AK* (accounts as real SDK account objects in the model store); native replay uses the real auth keeper.',
+    'Bank model: model.BK mirrors cosmos-sdk v0.50.10 x/bank send/mint/burn control flow incl. locked coins and events; native replay uses the real bank keeper.',
+    'Address/number renderings (bech32, hex, decimal) are injective uninterpreted renderings with exact inverses.',
+    'Package-level state of all packages is initialised once per engine worker and kept across paths.',
+]
+
 CHECKS = {
+    'C04': {
+        'pkgs': ['./zzverif/hsdb'],
+        'harnesses': [
+            {'fn': P + 'zzverif/hsdb.H_C04_2_Ledger'},
+        ],
+        'level_text': 'Bounded model checking of the real StateDB balance mutators over a symbolic bank ledger: every path of AddBalance/SubBalance (through the real sdk.Coins / sdkmath code) is enumerated and the ledger identities are decided by z3 for all amounts below 2^255.',
+        'level_note': 'Trusted: gosym, solvers, store/codec/account/bank models (bank model mirrors SDK source; replayed natively against the real bank keeper).',
+        'bounds': ['amounts, balances, supply in [0, 2^255)', '1 symbolic address (20 symbolic bytes), 2 denominations', 'one mutator call'],
+        'outside': ['coins minted by other SDK modules', 'the EVM interpreter'],
+        'assumptions': SDB_ASSUMPTIONS,
+    },
     'C09': {
         'level_text': 'Bounded model checking of the real CalculateBaseFee / EndBlock / misc.CalcBaseFee code: every feasible path is enumerated and each assertion (no panic, EIP-1559 value, floors) is decided by z3 over the full integer ranges stated in the bounds; this is the right level because the property is pure integer arithmetic whose failures sit at rare boundary values (zero gas target, >int64 fees).',
         'level_note': 'Trusted: gosym interpreter and Int encoding, z3 5.1.0 (cross-checked by z3 4.8.12/cvc5), store/codec/logger models; BaseApp block-gas-meter rule (limited iff MaxGas > 0) is modelled in the harness; fee-market end blocker ordering is not checked.',
